@@ -711,8 +711,16 @@ impl CompositionGraph {
             Ok(())
         })?;
 
-        // Add dependency edges to any existing defined types that reference this one
-        for (other_ty, other) in &self.defined {
+        // Add dependency edges to any existing defined types that reference this one;
+        // visit them in node order so that the edge order (and with it the encoding
+        // order) does not depend on hash map iteration order
+        let mut defined = self
+            .defined
+            .iter()
+            .map(|(ty, node)| (*ty, *node))
+            .collect::<Vec<_>>();
+        defined.sort_by_key(|(_, node)| *node);
+        for (other_ty, other) in &defined {
             other_ty.visit_defined_types(&self.types, &mut |_, id| {
                 let dep_ty = Type::Value(ValueType::Defined(id));
                 if dep_ty == ty
